@@ -279,7 +279,8 @@ def rule_r3(ck, prog, rule='C16.R3'):
                 ok = False
     ck.verdict(ok, rule, f, 'jaeger-decodes-checked', hb[0].n if hb else None, 'every HexToBinary result is checked' if ok else 'a Jaeger field is decoded without checking that it fits (over-long ids are silently zeroed or truncated)')
     fc = [n for n in f.nodes if n['k'] == 'call' and strip_targs(n.get('c', '')).endswith('SplitString')]
-    ok = bool(fc) and any(comparison(f, n['i']) and comparison(f, n['i'])[0] == '!=' and strip_casts(f, comparison(f, n['i'])[1]) is fc[0] for n in f.nodes)
+    ok = bool(fc) and any(comparison(f, n['i']) and comparison(f, n['i'])[0] == '!=' and
+                          (strip_casts(f, comparison(f, n['i'])[1]) is fc[0] or strip_casts(f, comparison(f, n['i'])[2]) is fc[0]) for n in f.nodes)
     ck.verdict(ok, rule, f, 'jaeger-four-fields', fc[0] if fc else None, 'exactly four fields' if ok else 'the Jaeger header is not required to have exactly four fields')
 
 
